@@ -19,12 +19,19 @@ FAULTS = ['sleep', 'spin1', 'spin4', 'alloc', 'abort', 'segv', 'kill']
 GRACE = 10.0
 
 
-def proc_state(pid):
+def proc_state(pid, marker):
+    """State letter of process ``pid`` if it still is the command process of
+    this run (pids are recycled quickly while 16 shards spawn commands: the
+    command line must mention this run's private spec file)."""
     try:
+        with open(f'/proc/{pid}/cmdline', 'rb') as f:
+            cmdline = f.read().decode('utf-8', 'replace')
+        if marker not in cmdline:
+            return None
         with open(f'/proc/{pid}/stat') as f:
             s = f.read()
         return s[s.rindex(')') + 2]
-    except (FileNotFoundError, ProcessLookupError, ValueError):
+    except (FileNotFoundError, ProcessLookupError, ValueError, OSError):
         return None
 
 
@@ -62,6 +69,9 @@ def make_case(r):
     if fault == 'alloc' and r.random() < 0.7:
         memout = r.choice([64, 128])
         opts += ['--memout', str(memout)]
+    if r.random() < 0.3:
+        # exit code only: a timed-out run has no exit code at all
+        opts += ['--ignore-output']
     # keep runs short: restrict the mutators
     opts += ['--disable-all', '--erase-node', '--constants',
              '--substitute-children']
@@ -120,9 +130,17 @@ def judge(res, run, limit, desc, golden_fault=None):
     # liveness of every command process
     alive = []
     for e in run.cmdlog:
-        st = proc_state(e['pid'])
+        st = proc_state(e['pid'], run.specfile)
         if st is not None and st != 'Z':
             alive.append((e['pid'], st, e.get('fault')))
+    # what the harness found alive in the run's process group right after
+    # the main process had exited (before it cleaned up)
+    if not run.timed_out:
+        for pid, st, cl in run.lingering_procs:
+            if run.specfile in cl:
+                alive.append((pid, st, 'lingering command'))
+            else:
+                res.count('lingering_non_command_processes')
     if alive:
         witness['alive'] = alive[:5]
         res.violation('command-process-survives',
